@@ -666,6 +666,55 @@ fn grid_sources(tier: Tier) -> Vec<String> {
         let (open, close) = ("(".repeat(n), ",)".repeat(n));
         out.push(format!("{{% set {open}x{close} = 1 %}}{{{{ x }}}}"));
     }
+    // range() over all triples of boundary integers (the length and every element are computed
+    // from start, stop and step: each intermediate product and sum must stay in range)
+    const RANGE_ARGS: [&str; 16] = [
+        "0", "1", "-1", "2", "-2", "9223372036854775807", "9223372036854775806", "-9223372036854775808", "-9223372036854775807",
+        "4611686018427387904", "-4611686018427387904", "9223372036854775808", "100000", "100001", "-100000", "3074457345618258603",
+    ];
+    for a in RANGE_ARGS {
+        for b in RANGE_ARGS {
+            out.push(format!("{{{{ range({a}, {b})|list|length }}}}{{{{ range({a}, {b})|last }}}}"));
+            for c in RANGE_ARGS {
+                out.push(format!("{{{{ range({a}, {b}, {c})|list }}}}{{{{ range({a}, {b}, {c})|length }}}}{{{{ range({a}, {b}, {c})|last }}}}{{{{ range({a}, {b}, {c})[-1] }}}}"));
+            }
+        }
+    }
+    // string literals: every sequence of up to three escape pieces (surrogate halves in every
+    // order, truncated and malformed \u, \x and octal escapes, unknown escapes, a trailing backslash)
+    const ESCAPES: [&str; 26] = [
+        "\\u0041", "\\ud7ff", "\\ud800", "\\udbff", "\\udc00", "\\udfff", "\\ue000", "\\uffff", "\\ud83d", "\\ude00", "\\u00", "\\u", "\\uzzzz",
+        "\\x41", "\\xff", "\\x4", "\\x", "\\777", "\\400", "\\7", "\\0", "\\8", "\\q", "a", "\u{e9}", "\u{1F600}",
+    ];
+    let n_esc = tier.pick(2, 3);
+    let mut seqs: Vec<String> = vec![String::new()];
+    let mut level: Vec<String> = vec![String::new()];
+    for _ in 0..n_esc {
+        let mut next = vec![];
+        for p in &level {
+            for e in ESCAPES {
+                next.push(format!("{p}{e}"));
+            }
+        }
+        seqs.extend(next.iter().cloned());
+        level = next;
+    }
+    for e in ESCAPES.iter().take(13) {
+        // the surrogate pieces also three deep in the quick tier
+        for f in ESCAPES.iter().take(13) {
+            for g in ESCAPES.iter().take(13) {
+                seqs.push(format!("{e}{f}{g}"));
+            }
+        }
+    }
+    for q in &seqs {
+        out.push(format!("{{{{ \"{q}\" }}}}{{{{ '{q}'|length }}}}"));
+    }
+    for q in seqs.iter().take(27 * 26) {
+        out.push(format!("{{{{ \"{q}\\\" }}}}"));
+        out.push(format!("{{% set x = {{'{q}': \"{q}\"}} %}}{{{{ x }}}}{{{{ x|tojson }}}}"));
+        out.push(format!("{{% include \"{q}\" ignore missing %}}{{{{ s|replace('{q}', \"{q}\") }}}}"));
+    }
     // repetition, formatting, concatenation with boundary counts
     for a in &ARGS[..n1] {
         for subj in ["s", "'ab'", "l", "(1, 2)", "range(3)", "ll", "e", "[]", "()"] {
